@@ -531,6 +531,8 @@ def h_graph(ax, mode):
         src_chunks = (16, 16, ns)
     else:
         src_chunks = (16, 16)
+    if mode == "band_chunked":  # Y,X,S source chunked along the sample axis too
+        src_chunks = (16, 16, 1)
     data = _FakeDask(shape, src_chunks)
     xx = _XX(data, g, 1 if ax == "SYX" else 0)
     if mode == "irregular_chunks":
@@ -644,6 +646,11 @@ def h_graph(ax, mode):
         rows = src_arr.chunks[yd]
         k_ = len(rows)
         prove(f"{b.name}:source_blocks_are_the_tiles", And(k_ == m.chunked.y, *[rows[i_] == m.tile.y for i_ in range(k_ - 1)], rows[-1] == src_arr.shape[yd] - m.tile.y * (k_ - 1)))
+        cols = src_arr.chunks[yd + 1]
+        kc = len(cols)
+        prove(f"{b.name}:source_block_columns_are_the_tiles", And(kc == m.chunked.x, *[cols[i_] == m.tile.x for i_ in range(kc - 1)], cols[-1] == src_arr.shape[yd + 1] - m.tile.x * (kc - 1)))
+        if ax == "YXS":
+            prove(f"{b.name}:all_samples_of_a_pixel_in_one_block", tuple(src_arr.chunks[2]) == (ns,))
     # write order: overviews (smallest first) before full resolution
     lv = [l_ for l_, _ in seq]
     prove("overviews_before_full_resolution_smallest_first", lv == sorted(lv, reverse=True))
@@ -740,7 +747,7 @@ OBLIGATIONS = [
        functions=("odc.geo.cog._tifffile._make_empty_cog", "odc.geo.cog._shared.CogMeta.chunked", "odc.geo.cog._tifffile._compress_tiles"),
        bounds="image sides 1..4096, block from grid", stubs=("tifffile.TiffWriter recorder", "geotiff_metadata recorder", "dask re-chunk contract: ceil(N/c) blocks per axis (the replay builds the real dask graph; dask.base.quote aliased to dask.core.quote, which this dask release moved)"),
        setup=setup_tifffile, timeout_ms=20000),
-    Ob("L11_task_graph", h_graph, fixed(dict(ax="YX", mode="x"), dict(ax="YXS", mode="x"), dict(ax="SYX", mode="per_plane"), dict(ax="SYX", mode="single_chunk"), dict(ax="YX", mode="irregular_chunks"), dict(ax="YXS", mode="irregular_chunks")),
+    Ob("L11_task_graph", h_graph, fixed(dict(ax="YX", mode="x"), dict(ax="YXS", mode="x"), dict(ax="SYX", mode="per_plane"), dict(ax="SYX", mode="single_chunk"), dict(ax="YX", mode="irregular_chunks"), dict(ax="YXS", mode="irregular_chunks"), dict(ax="YXS", mode="band_chunked")),
        descr="save_cog_with_dask/_compress_tiles: distinct task names per (level, plane), task i compresses the source block of tile i, tiles labelled (level, plane, y, x); write order = overviews smallest first, then full resolution",
        functions=("odc.geo.cog._tifffile.save_cog_with_dask", "odc.geo.cog._tifffile._compress_tiles", "odc.geo.cog._shared.CogMeta.tidx"),
        bounds="image sides 1..64 (symbolic), 16-pixel tiles, layouts YX / YXS(3) / SYX(3 planes, or 2 in one chunk); dask token assumed to separate nothing (constant)",
